@@ -86,3 +86,87 @@ def deck_sweep(prop, tier, seed, families=('level0',), n_quick=48, n_thorough=60
             'rule': f'{n} seeded decks per family {list(families)} (seed base {seed}); a deck is non-trivial when at '
                     'least one probe point was located by the oracle and more than one volume was written',
             'failures': fails[:10], 'harness_errors': errors[:3], 'wall_s': round(time.time() - t0, 1)}
+
+
+FLAG_SETS = [(), ('--skip-deduplication',), ('--always-inline-filling',), ('--always-inline-filled',),
+             ('--skip-deduplication', '--always-inline-filling'), ('--skip-deduplication', '--always-inline-filled'),
+             ('--always-inline-filling', '--always-inline-filled'),
+             ('--skip-deduplication', '--always-inline-filling', '--always-inline-filled')]
+
+
+def _identity_map(deck, f, pts):
+    """point -> (provenance of the owning volume, composition) as read from one written file"""
+    gc = {}
+    for name, ids in f.geomcomp:
+        for i in ids:
+            gc[i] = name
+    out = []
+    for pt in pts:
+        if f.near_surface(pt, 1e-6):
+            out.append(None)
+            continue
+        vols = f.locate(pt)
+        out.append(tuple(sorted((f.volumes[v]['comment'] if f.volumes[v]['comment'] else str(v), gc.get(v))
+                                for v in vols)))
+    return out
+
+
+def _flags_one(fam, seed, tier):
+    from . import checks, decks, run, t4file
+    import random
+    deck, opts = FAMILIES[fam](seed)
+    text = deck.text(random.Random(f'fmt{seed}'))
+    pts = decks.probe_points(seed, 50)
+    base = None
+    fails = []
+    combos = [(fl, 1.0) for fl in FLAG_SETS] + [((), 0.0), ((), 0.5), ((), 1e9), (('--skip-deduplication',), 1e9)]
+    if tier == 'quick':
+        combos = combos[:4] + combos[6:7] + combos[8:]
+    n = 0
+    for flags, score in combos:
+        t4, out, exc = run.convert(text, lattice=opts.get('lattice', ()), flags=flags, max_inline_score=score)
+        if exc is not None and base is None and not flags and score == 1.0:
+            # the default run itself fails: not a statement about options (reported by the other properties)
+            return {'fails': [], 'stats': {'located': 0, 'volumes': 0, 'runs': 0}, 'nontrivial': False}
+        if exc is not None:
+            fails.append({'property': 'C13', 'label': 'conversion-raised-under-options',
+                          'detail': f'{flags} score={score}: {type(exc).__name__}: {exc}', 'deck': text,
+                          'flags': list(flags), 'family': fam, 'seed': seed, 'point': None})
+            continue
+        f = t4file.T4File(t4)
+        m = _identity_map(deck, f, pts)
+        n += 1
+        if base is None:
+            base = m
+            continue
+        for pt, a, b in zip(pts, base, m):
+            if a is not None and b is not None and a != b:
+                fails.append({'property': 'C13', 'label': 'options-change-the-owner-of-a-point',
+                              'detail': f'{flags} score={score}: default run {a}, this run {b}', 'deck': text,
+                              'flags': list(flags), 'family': fam, 'seed': seed, 'point': pt})
+                break
+    return {'fails': fails, 'stats': {'located': len(pts), 'volumes': 2, 'runs': n}, 'nontrivial': n > 1}
+
+
+def flag_sweep(prop, tier, seed, families=('fill', 'lattice', 'level0'), n_quick=10, n_thorough=150):
+    n = n_quick if tier == 'quick' else n_thorough
+    units = [((fam, seed * 100003 + i), (fam, seed * 100003 + i, tier)) for fam in families for i in range(n)]
+    t0 = time.time()
+    res = run_units(units, _flags_one, unit_timeout=600)
+    fails, evals, nontriv, runs = [], 0, 0, 0
+    for key, (kind, r) in res.items():
+        if kind != 'ok':
+            fails.append({'label': 'harness-error', 'case': f'{key[0]}/{key[1]}', 'detail': (r or kind)[-600:],
+                          'property': prop})
+            continue
+        evals += 1
+        runs += r['stats']['runs']
+        nontriv += 1 if r['nontrivial'] else 0
+        for f in r['fails']:
+            f['case'] = f'{key[0]}/{key[1]}'
+            fails.append(f)
+    return {'name': f'flag-sweep[{"+".join(families)}]', 'kind': 'bounded (same deck converted under every option '
+            'combination; owner and composition of every probe point compared with the default run)',
+            'evaluations': evals, 'distinct_nontrivial': nontriv, 'conversions': runs, 'exhaustive': False,
+            'rule': f'{n} seeded decks per family {list(families)}; non-trivial when at least two option combinations '
+                    'converted', 'failures': fails[:10], 'wall_s': round(time.time() - t0, 1)}
